@@ -265,11 +265,57 @@ def check_dwarf(ctx, case, o, profile, stats):
             ctx.nontrivial(("dwarf", how, e["sup"], e["sec"], e["k"]))
 
 
+def check_dwp(ctx, case, o, profile, stats):
+    """DWARF package (MCDwarf dwp cases): section views of every unit, per reader kind and access path."""
+    ver = case["ver"]
+    for kind, ko in o.items():
+        if "units" not in ko:
+            ctx.violation("dwp:v%d:%s:load" % (ver, kind), "DwarfPackage::load failed on the model's package: %s" % ko,
+                          {"ver": ver}, ko)
+            continue
+        for u, uo in zip(case["units"], ko["units"]):
+            exp = u["exp"]
+            for call in ("cu_sections", "find_cu", "tu_sections", "find_tu"):
+                g = uo[call]
+                stats["dwp_units"] += 1
+                where = "v%d row %d %s on %s [%s]" % (ver, u["row"], call, kind, profile)
+                small = {"ver": ver, "row": u["row"], "call": call, "kind": kind}
+                if not exp["ok"]:
+                    if g.get("ok") is not False:
+                        ctx.violation("dwp:v%d:%s:beyond-section-accepted" % (ver, call),
+                                      "%s: a contribution reaching beyond its section must be an error, got %s" %
+                                      (where, json.dumps(g)[:300]), small, g)
+                    continue
+                if g.get("ok") is not True:
+                    ctx.violation("dwp:v%d:%s:result" % (ver, call),
+                                  "%s: model hands back the unit's sections, observed %s" % (where, json.dumps(g)[:300]),
+                                  small, g)
+                    continue
+                gv = {v["sec"]: v for v in g["views"]}
+                for e in exp["views"]:
+                    v = gv.get(e["sec"])
+                    stats["dwp_views"] += 1
+                    if v != e:
+                        bad = "missing" if v is None else "+".join(k for k in ("bytes", "ptr", "borrowed") if v.get(k) != e.get(k))
+                        ctx.violation("dwp:v%d:%s:%s:%s" % (ver, call, e["sec"], bad),
+                                      "%s: section %s handed back as %s, model (SubSeq of the package section) %s" %
+                                      (where, e["sec"], json.dumps(v), json.dumps(e)), small, v)
+                    else:
+                        ctx.nontrivial(("dwp", ver, u["row"], call, kind, e["sec"]))
+                gp = {(p["sec"], p["at"]): p for p in g["probes"]}
+                for e in exp["probes"]:
+                    p = gp.get((e["sec"], e["at"]))
+                    if p is None or p["res"] != e["res"]:
+                        ctx.violation("dwp:v%d:%s:%s:offset_id" % (ver, call, e["sec"]),
+                                      "%s: id taken at package offset %d of %s resolves to %s in the unit's Dwarf, model %s" %
+                                      (where, e["at"], e["sec"], json.dumps(p and p["res"]), json.dumps(e["res"])), small, p)
+
+
 def run(ctx):
     q = ctx.quick
     profiles = ["dev"] if q else ["dev", "release"]
     bins = {p: ctx.build("gvh-reader", p) for p in profiles}
-    stats = {"shadowed": 0, "probes": 0, "evals": 0, "dwarf_views": 0, "dwarf_probes": 0}
+    stats = {"shadowed": 0, "probes": 0, "evals": 0, "dwarf_views": 0, "dwarf_probes": 0, "dwp_units": 0, "dwp_views": 0}
 
     # --- G
     r = ctx.tlc("MCReader", "MCReader_quick" if q else "MCReader_thorough", timeout=3000)
@@ -287,7 +333,10 @@ def run(ctx):
                 ctx.violation("dwarf:replay:%s:%s" % (case.get("how"), (o or {}).get("outcome")),
                               "harness did not return normally", {"how": case.get("how")}, o)
                 continue
-            check_dwarf(ctx, case, o, prof, stats)
+            if case.get("sys") == "dwp":
+                check_dwp(ctx, case, o, prof, stats)
+            else:
+                check_dwarf(ctx, case, o, prof, stats)
 
     # --- V
     if q:
@@ -311,7 +360,8 @@ def run(ctx):
                     "in that state (= every transition of the state graph plus the inherent range constructors), each executed on six "
                     "reader kinds after re-running the history from a fresh buffer; non-trivial = the probe succeeds and changes a window",
                exhaustive=True,
-               extra_cov={"dwarf_section_views": stats["dwarf_views"], "dwarf_offset_id_probes": stats["dwarf_probes"],
+               extra_cov={"dwp_unit_calls": stats["dwp_units"], "dwp_section_views": stats["dwp_views"],
+                          "dwarf_section_views": stats["dwarf_views"], "dwarf_offset_id_probes": stats["dwarf_probes"],
                           "probes": stats["probes"], "probe_evaluations": stats["evals"],
                           "shadowed_kind_cases": stats["shadowed"]})
 
